@@ -195,8 +195,12 @@ fn to_params(hv: &HVocab, p: &HParams) -> Parameters {
 }
 
 pub fn run_tree(t: &GTree, start_path: &[usize], params: &[HParams], sink: &mut Sink) {
+    run_tree_with(HVocab::new, t, start_path, params, sink)
+}
+
+pub fn run_tree_with(mk: fn(&mut Xot) -> HVocab, t: &GTree, start_path: &[usize], params: &[HParams], sink: &mut Sink) {
     let mut xot = Xot::new();
-    let hv = HVocab::new(&mut xot);
+    let hv = mk(&mut xot);
     let root = match build(&mut xot, &hv.v, t, true) {
         Ok(n) => n,
         Err(_) => {
@@ -422,6 +426,19 @@ pub fn run(seed: u64, count: usize, tier: &str, sink: &mut Sink) {
     let mut rng = Rng::new(seed ^ 0x47A15);
     with_vocab(|hv| sink.emit(hv.v.wire(), "ok".to_string()));
     corpus(sink);
+    // a vocabulary in which the crate's XHTML constant is not registered before `html5()`
+    {
+        use GValue::*;
+        let mut xot = Xot::new();
+        let hv = HVocab::standard_only(&mut xot);
+        sink.emit(hv.v.wire(), "ok".to_string());
+        let e = |n: usize, kids: Vec<GTree>| GTree::new(Element(n), kids);
+        let both = [HParams::plain(), HParams { cdata: vec![], indent: Some(vec![]) }];
+        // a, b in no namespace; a in urn:a with and without declaration; text with everything
+        run_tree_with(HVocab::standard_only, &e(2, vec![e(3, vec![GTree::leaf(Text("a<b&c\u{a0}".into()))]), e(6, vec![GTree::leaf(Namespace(2, NS_A))])]), &[], &both, sink);
+        run_tree_with(HVocab::standard_only, &e(6, vec![]), &[], &both, sink);
+        with_vocab(|hv| sink.emit(hv.v.wire(), "ok".to_string()));
+    }
     if tier == "thorough" {
         exhaustive(sink);
     }
